@@ -143,6 +143,26 @@ def run_task(task):
             walk(lambda: ExponentialSmoothingTracker(alpha=a),
                  lambda tr, h, ex, w: check_es(tr, h, alpha if exact else F(float(alpha)), ex, w, eps), alphabet, L, conv, exact,
                  f"ExponentialSmoothingTracker(alpha={alpha})[{name}]", counter)
+        elif kind in ('welford-sub', 'es-sub'):
+            # a user subclass that overrides update (clipping / logging) and delegates with super().update(): the inherited
+            # statistics and the update count must be those of the values that were handed on
+            base_cls = WelfordTracker if kind == 'welford-sub' else ExponentialSmoothingTracker
+
+            class Delegating(base_cls):
+                seen = 0
+
+                def update(self, value_i):
+                    self.seen += 1
+                    return super().update(value_i)
+
+            class Inheriting(base_cls):      # overrides nothing
+                pass
+            for cls_, tag in ((Delegating, 'overrides update and calls super().update'), (Inheriting, 'overrides nothing')):
+                if kind == 'welford-sub':
+                    walk(cls_, check_welford, ALPHA_A, L, ident, True, f"user subclass of WelfordTracker ({tag})", counter)
+                else:
+                    walk(lambda: cls_(alpha=arg), lambda tr, h, ex, w: check_es(tr, h, arg, ex, w), ALPHA_A, L, ident, True,
+                         f"user subclass of ExponentialSmoothingTracker(alpha={arg}) ({tag})", counter)
         elif kind == 'es-reassign':
             # the public alpha attribute is re-assigned before the first value: the closed form for the NEW alpha must hold
             a1, a2, alphabet = arg
@@ -197,6 +217,8 @@ def plan(tier):
     for a in (1.0, 0.999, 0.5, 1e-3):       # drops and jumps in magnitude
         tasks.append(('es', (a, [1e17, 3.0, -2.5e-3, -4e16], float, False, f'float magnitude jumps alpha={a!r}'), 4))
     tasks.append(('lin-welford', None, 2 if tier != 'thorough' else 3))
+    tasks.append(('welford-sub', None, 3))
+    tasks.append(('es-sub', F(1, 4), 3))
     for a1, a2 in ((F(1, 10), F(1)), (F(1, 2), F(1, 4)), (F(1), F(1, 3)), (F(0), F(1, 2))):
         tasks.append(('es-reassign', (a1, a2, ALPHA_A), 3))
     return tasks
